@@ -1,5 +1,6 @@
 import Labella.Proofs.LayoutSep
 import Labella.Model.LayoutSpec
+import Labella.Props.C01
 /-! # C03 — position bounds are honoured whenever the items fit; otherwise the excess spills -/
 namespace Labella.C03
 open Labella Labella.Chain Labella.Layout
@@ -38,5 +39,31 @@ theorem wall_gaps_kept (o : ROpts) (its : List LItem) :
 -- non-vacuity: two labels that fit between 0 and 20 lie inside; walls stay (almost) put
 example : solve Layout.eps (chainVars ⟨some 0, some 20, 3, 2⟩ [⟨5, 4, false⟩, ⟨6, 4, false⟩])
     (chainGaps ⟨some 0, some 20, 3, 2⟩ [⟨5, 4, false⟩, ⟨6, 4, false⟩]) = [0, 2, 9, 20] := by decide +kernel
+
+
+/-! ### end to end -/
+open Labella.C01 (layerView solvedItems) in
+/-- **C03 end to end** (proved in `Props/C01.lean`): in every layer whose items fit between the bounds every item lies inside the bounds up to the
+wall-stiffness bound `d` (`Σ (zᵢ − tᵢ)² ≤ W·d²`), the accumulated solver tolerance and the rounding 1/2; and in every layer, fitting or not, the separation
+holds in full (the excess spills over the bounds instead of being absorbed as overlap) -/
+theorem layout_inside_end_to_end (o : FOpts) (labels : List Label) (j : Nat)
+    (hw : ∀ l ∈ labels, 0 ≤ l.width) (hsw : 0 ≤ o.stubWidth) (hns : 0 ≤ o.nodeSpacing) (hls : 0 ≤ o.lineSpacing)
+    (zs : List ℚ) (hz : zs.length = (solvedItems o labels j).length)
+    (hfeas : SepBy 0 (chainGaps o.toR (solvedItems o labels j))
+      ((leftWall o.toR).map (·.t) ++ zs ++ (rightWall o.toR).map (·.t)))
+    (d : ℚ) (hd : 0 ≤ d) (hK : cost ((solvedItems o labels j).map toVar) zs ≤ Gen.wallWeight * d * d) :
+    insideB o.toR (d + ((solvedItems o labels j).length : ℚ) * Layout.eps + 1 / 2)
+        (layerView o labels (compute o labels) j) = true ∧
+      sepAdjB o.toR (1 + Layout.eps) (layerView o labels (compute o labels) j) = true :=
+  C01.compute_inside o labels j hw hsw hns hls zs hz hfeas d hd hK
+
+open Labella.C01 (layerView solvedItems) in
+/-- "the items fit" (widths plus spacings ≤ maxPos − minPos) is exactly the hypothesis of `layout_inside_end_to_end` -/
+theorem fits_iff_feasible (o : FOpts) (labels : List Label) (j : Nat) (h : solvedItems o labels j ≠ []) :
+    fitsB o.toR (solvedItems o labels j) = true ↔
+      ∃ zs : List ℚ, zs.length = (solvedItems o labels j).length ∧
+        SepBy 0 (chainGaps o.toR (solvedItems o labels j))
+          ((leftWall o.toR).map (·.t) ++ zs ++ (rightWall o.toR).map (·.t)) :=
+  C01.fits_iff_feasible o labels j h
 
 end Labella.C03
